@@ -83,7 +83,7 @@ fn run_history<'a>(hist: &[H], fail_at: Option<u64>, fail_from: Option<u64>, pla
         let mut window_buf = vec![0u8; 32768];
         let mut slots: Vec<Slot<'a>> = (0..3).map(|_| Slot { z: wired(&mut ctl), kind: Kind::Empty, pos: 0, given: 0, data: plain, init: None }).collect();
         let mut rets = vec![];
-        let mut do_init = |slots: &mut Vec<Slot<'a>>, h: H, ctl: &mut AllocCtl, window: *mut u8| -> i32 {
+        let do_init = |slots: &mut Vec<Slot<'a>>, h: H, ctl: &mut AllocCtl, window: *mut u8| -> i32 {
             match h {
                 H::DInit(s, c) => {
                     let (l, wb, ml, st) = DCFGS[c];
